@@ -191,7 +191,10 @@ def run(case, ctx):
         d = ctx.workdir()
         try:
             tdir = os.path.join(d, "ovni")
-            tf.write_trace(tdir, streams, order=order)
+            foreign = tf.foreign_paths(Rng(case["world"]["foreign"] ^ vs), streams) if case["world"].get("foreign") else None
+            if foreign:
+                info["probes"]["event-less stream of a non-thread part present"] = 1
+            tf.write_trace(tdir, streams, order=order, foreign=foreign)
             status, out, err = ctx.run_tool("ovniemu", [tdir])
             verdict = emu_verdict(status, err)
             tail = "\n--- tool stderr (tail) ---\n" + err.decode(errors="replace")[-1200:]
